@@ -494,7 +494,7 @@ pub fn expected_exhausted(node: &Node, n: u64, leaves: &[LeafSpec]) -> bool {
 pub fn exhaustion_point(node: &Node, leaves: &[LeafSpec]) -> Option<u64> {
     match node {
         Node::Leaf(j) => leaves[*j].len,
-        Node::Delay(c, k) => exhaustion_point(c, leaves).map(|e| e + *k as u64),
+        Node::Delay(c, k) => exhaustion_point(c, leaves).map(|e| e.saturating_add(*k as u64)),
         Node::ZipMap(a, b, _) | Node::AddAmp(a, b) | Node::MulAmp(a, b) => match (exhaustion_point(a, leaves), exhaustion_point(b, leaves)) {
             (Some(x), Some(y)) => Some(x.min(y)),
             (Some(x), None) | (None, Some(x)) => Some(x),
@@ -516,7 +516,8 @@ pub fn unary(kind: &str, c: Node, variant: usize) -> Node {
         "offset_amp_per_channel" => Node::OffsetAmpPerChannel(b, [4, -3, 0][variant % 3]),
         "clip_amp" => Node::ClipAmp(b, [4, 2, 1, 8, 32][variant % 5]),
         "inspect" => Node::Inspect(b),
-        "delay" => Node::Delay(b, [0usize, 1, 2, 5][variant % 4]),
+        // also delays far beyond anything that will be drained (64-bit hosts): all silence, no pulls
+        "delay" => Node::Delay(b, [0usize, 1, 2, 5, 3, 7, 11, 1 << 32, (1 << 32) + 1, usize::MAX][variant % 10]),
         _ => panic!("unknown unary kind {}", kind),
     }
 }
